@@ -10,7 +10,7 @@
    bytes (always true unless channels*bytes_per_sample and the frame count are both odd -
    see C16_odd_length_refuted). *)
 From Coq Require Import List Arith Bool NArith ZArith Lia.
-From PV Require Import Common.Cases C16.Model C16.Spec C16.ProofsA C16.ProofsB C16.ProofsC C16.ProofsD C16.ProofsE.
+From PV Require Import Common.Cases C16.Model C16.Spec C16.ProofsA C16.ProofsB C16.ProofsC C16.ProofsD C16.ProofsE C16.Long.
 Import ListNotations.
 Local Open Scope nat_scope.
 
@@ -275,6 +275,25 @@ Proof.
 Qed.
 Print Assumptions C16_reset_must_clear_padding.
 
+(* Streams of ANY length, in particular longer than 2^16 packets (the sequence number comes back to
+   its start value): the 12-byte headers of the datagrams are given by the closed form
+   [hdrs_from] (datagram i: marker iff i = 0, sequence (seq0+i) mod 2^16, timestamp
+   latency+352*i), hence so is every summary computed from them ([sum_model] computes it without building the list).  This is what the harness's
+   compact comparison of a 65536+k packet run rests on. *)
+Theorem C16_long_stream_headers : forall c seq0 src sched,
+  wf_cfg c seq0 -> Nat.even (length src) = true -> ts_fit c (all_packets c src) ->
+  no_stop sched -> all_packets c src < length sched ->
+  map (firstn 12) (s_out (fst (file_stream c seq0 src sched)))
+  = hdrs_from (c_latency c) (c_ssrc c) seq0 0 (all_packets c src) /\
+  summarize (map (firstn 12) (s_out (fst (file_stream c seq0 src sched))))
+  = sum_model (c_latency c) (c_ssrc c) seq0 (N.of_nat (all_packets c src)).
+Proof.
+  intros c seq0 src sched Hwf He Hts Hns Hlen.
+  pose proof (long_headers c seq0 src sched Hwf He Hts Hns Hlen) as H. split; [exact H|].
+  rewrite H, sum_model_spec, Nat2N.id. reflexivity.
+Qed.
+Print Assumptions C16_long_stream_headers.
+
 (* ------------------------------------------------------------------ non-vacuity *)
 (* pyatv's real parameters (AirPlay v2 without audio cipher): stereo 16 bit, latency 22050+44100, backlog 1000, start at 65534 *)
 Definition real_cfg : cfg :=
@@ -302,3 +321,10 @@ Example C16_ex_wrap :
   = [[128; 214; 255; 254]; [128; 214; 255; 255]; [128; 214; 0; 0]; [128; 214; 0; 1]]%N /\
   map (skipn 4) (retransmit (s_backlog s) 65534 4) = firstn 4 (s_out s).
 Proof. vm_compute. repeat split; reflexivity. Qed.
+
+(* 65540 headers starting at sequence 65000: exactly one marker (position 0), no break in the
+   sequence numbers although they pass the start value again at position 65536 *)
+Definition ex_view (s : hsum) := (h_markers s, h_seqbreaks s, h_tsbreaks s, h_count s, hseq (h_first s), hseq (h_last s)).
+Example C16_ex_long :
+  ex_view (sum_model 704 7 65000 65540) = ([0], [], [], 65540, 65000, 65003)%N.
+Proof. vm_cast_no_check (@eq_refl (list N * list N * list N * N * N * N) ([0], [], [], 65540, 65000, 65003)%N). Qed.
